@@ -149,6 +149,8 @@ func c05CheckRound(r *core.Result, round int, o *roundObs) {
 		e    tree.Entry
 		gid  string
 		link string
+		// reported: put here by an add/modify event of this round
+		reported bool
 	}
 	M := map[string]*ment{}
 	for _, e := range o.Old.Entries {
@@ -206,7 +208,7 @@ func c05CheckRound(r *core.Result, round int, o *roundObs) {
 			// the link name is resolved after all events were applied: the
 			// event of the first member of a group arrives when its content
 			// is complete, possibly after the events of later members
-			M[n.Path] = &ment{e: ne, link: ne.LinkTo}
+			M[n.Path] = &ment{e: ne, link: ne.LinkTo, reported: true}
 			// digest
 			var content []byte
 			if ne.Type == tree.File && ne.LinkTo == "" && requested[n.Path] {
@@ -263,6 +265,10 @@ func c05CheckRound(r *core.Result, round int, o *roundObs) {
 		}
 		if !identityEqual(&me, &ne) {
 			modelDiff = append(modelDiff, fmt.Sprintf("identity of %s: model %s | dest %s", p, me.String(), ne.String()))
+		} else if me.Type == tree.Dir && m.reported && me.Mtime != ne.Mtime {
+			// a directory that was reported carries the reported time stamp,
+			// whatever else the transfer wrote below it afterwards
+			modelDiff = append(modelDiff, fmt.Sprintf("time stamp of reported directory %s: reported %d | dest %d", p, me.Mtime, ne.Mtime))
 		}
 	}
 	for _, e := range o.New.Entries {
